@@ -331,15 +331,21 @@ func init() {
 		}
 		s.CertUrl = mustURL(rest[i])
 		s.ValidityUrl = mustURL(rest[i+1])
-		d, err1 := strconv.ParseInt(rest[i+2], 10, 64)
-		x, err2 := strconv.ParseInt(rest[i+3], 10, 64)
-		if err1 != nil || err2 != nil {
-			panic("bad-op")
-		}
-		s.Date = time.Unix(d, 0)
-		s.Expires = time.Unix(x, 0)
+		s.Date = parseTimeArg(rest[i+2])
+		s.Expires = parseTimeArg(rest[i+3])
 		return s
 	}
+	register("sxg.mi", func(args []string) string {
+		e, rest := parseExchange(args)
+		rs, err := strconv.Atoi(rest[0])
+		if err != nil || rs <= 0 {
+			panic("bad-op")
+		}
+		if err := e.MiEncodePayload(rs); err != nil {
+			return "err"
+		}
+		return "ok " + showExchange(e)
+	})
 	register("sxg.sign.mock", func(args []string) string {
 		e, rest := parseExchange(args)
 		s := mkSigner(rest, true)
@@ -483,6 +489,23 @@ func certurlChain(spec string) certurl.CertChain {
 }
 
 // signer for the concurrency op: <certder> <certurl> <validityurl> <date> <expires>, mock algorithm (deterministic)
+// "sec" or "sec:nsec"
+func parseTimeArg(a string) time.Time {
+	p := strings.SplitN(a, ":", 2)
+	sec, err := strconv.ParseInt(p[0], 10, 64)
+	if err != nil {
+		panic("bad-op")
+	}
+	var nsec int64
+	if len(p) == 2 {
+		nsec, err = strconv.ParseInt(p[1], 10, 64)
+		if err != nil {
+			panic("bad-op")
+		}
+	}
+	return time.Unix(sec, nsec)
+}
+
 func mkSignerForConc(rest []string) *sxg.Signer {
 	cert, err := x509.ParseCertificate(ofHex(rest[0]))
 	if err != nil {
